@@ -156,7 +156,17 @@ def build(scene, state=None, assemble=True, options=None, names=None, extra=None
         fm = FrameMotion(f)
         B.frame_motions.append(fm)
         if fm.moving:
-            fr = Frame(r_OP=fm.r, r_OP_t=fm.r_t, r_OP_tt=fm.r_tt, A_IB=fm.A, A_IB_t=fm.A_t, A_IB_tt=fm.A_tt, name=nm("frame", k, f"f{k}"))
+            # legal calling styles: a part that does not move is handed over as a constant
+            kw = {}
+            if np.any(fm.amp != 0):
+                kw.update(r_OP=fm.r, r_OP_t=fm.r_t, r_OP_tt=fm.r_tt)
+            else:
+                kw.update(r_OP=fm.r0)
+            if fm.alpha != 0:
+                kw.update(A_IB=fm.A, A_IB_t=fm.A_t, A_IB_tt=fm.A_tt)
+            else:
+                kw.update(A_IB=fm.A0)
+            fr = Frame(name=nm("frame", k, f"f{k}"), **kw)
         else:
             fr = Frame(r_OP=fm.r0, A_IB=fm.A0, name=nm("frame", k, f"f{k}"))
         B.frames.append(fr)
